@@ -274,12 +274,27 @@ def _filled(shape, v):
     return r.view(SymArray)
 
 
+def _is_bool_dtype(dtype):
+    return dtype is bool or dtype is _np.bool_ or dtype == "bool"
+
+
 def zeros(shape, dtype=None, **k):
+    if _is_bool_dtype(dtype):
+        return _np.zeros(shape, dtype=bool)       # genuine bool array: storing a symbolic truth value forks
     return _filled(shape, 0)
 
 
 def ones(shape, dtype=None, **k):
+    if _is_bool_dtype(dtype):
+        return _np.ones(shape, dtype=bool)
     return _filled(shape, 1)
+
+
+def diff(a, n=1, axis=-1):
+    a = _conv(a)
+    if n != 1 or axis not in (-1, a.ndim - 1):
+        raise NotEncodable("diff with n != 1 or along another axis")
+    return a[..., 1:] - a[..., :-1]
 
 
 def empty(shape, dtype=None, **k):
@@ -756,6 +771,77 @@ def max(a, axis=None):
 
 
 amin, amax = min, max
+def _bin_elem(f, a, b):
+    """f applied element by element (with broadcasting) to arrays / scalars"""
+    arr = isinstance(a, (_np.ndarray, list, tuple)) or isinstance(b, (_np.ndarray, list, tuple))
+    if not arr:
+        return f(_conv_scalar(a), _conv_scalar(b))
+    A = _plain(_conv(a)) if isinstance(a, (_np.ndarray, list, tuple)) else _np.array(_conv_scalar(a), dtype=object)
+    B = _plain(_conv(b)) if isinstance(b, (_np.ndarray, list, tuple)) else _np.array(_conv_scalar(b), dtype=object)
+    A, B = _np.broadcast_arrays(A, B)
+    out = _np.empty(A.shape, dtype=object)
+    for idx in _np.ndindex(*A.shape):
+        out[idx] = f(A[idx], B[idx])
+    return out.view(SymArray)
+
+
+def minimum(a, b):
+    return _bin_elem(_min2, a, b)
+
+
+def maximum(a, b):
+    return _bin_elem(_max2, a, b)
+
+
+def clip(a, lo, hi, out=None):
+    if out is not None:
+        raise NotEncodable("clip(out=)")
+    lo, hi = _conv_scalar(lo), _conv_scalar(hi)
+    return _map(lambda x: x if x is POISON else _min2(_max2(x, lo), hi), a)
+
+
+def _arccos1(x):
+    """acos of a value: the uninterpreted acos* (stubs) on [-1, 1]; outside that numpy returns nan"""
+    from . import stubs
+    if x is POISON:
+        return POISON
+    if isinstance(x, SymReal):
+        if not ctx().branch(z3.And(toz(x) >= -1, toz(x) <= 1)):
+            return POISON
+    elif x < -1 or x > 1:
+        return POISON
+    return stubs.acos_term(x)
+
+
+def arccos(a):
+    return _map(_arccos1, a)
+
+
+def sin(a):
+    from . import stubs
+    return _map(stubs._sin, a)
+
+
+def cos(a):
+    from . import stubs
+    return _map(stubs._cos, a)
+
+
+def arctan2(y, x):
+    from . import stubs
+    return _bin_elem(stubs.atan2, y, x)
+
+
+def cross(a, b):
+    A, B = _plain(_conv(a)), _plain(_conv(b))
+    if A.shape[-1] != 3 or B.shape[-1] != 3:
+        raise NotEncodable("cross of non-3-vectors")
+    A, B = _np.broadcast_arrays(A, B)
+    out = _np.empty(A.shape, dtype=object)
+    out[..., 0] = A[..., 1] * B[..., 2] - A[..., 2] * B[..., 1]
+    out[..., 1] = A[..., 2] * B[..., 0] - A[..., 0] * B[..., 2]
+    out[..., 2] = A[..., 0] * B[..., 1] - A[..., 1] * B[..., 0]
+    return out.view(SymArray)
 
 
 def median(a, axis=None):
